@@ -60,18 +60,58 @@ def nightly_sysroot():
     return subprocess.check_output(["rustc", "+nightly", "--print", "sysroot"], text=True).strip()
 
 
+_IN_USE = []      # shared "in use" locks held for the life of this process: a cache directory that is being read is never pruned
+
+
+def _mark_in_use(h):
+    try:
+        fh = open(os.path.join(CACHE, h + ".use"), "w")
+        fcntl.flock(fh, fcntl.LOCK_SH)
+        _IN_USE.append(fh)
+    except OSError:
+        pass
+
+
 def _prune(keep):
+    """drop old cache directories of OTHER trees (disk is limited) — only those no process is reading (exclusive `.use` lock obtainable) and that were not touched for 10 minutes"""
     try:
         ents = [e for e in os.listdir(CACHE) if os.path.isdir(os.path.join(CACHE, e)) and e != keep]
     except FileNotFoundError:
         return
     ents.sort(key=lambda e: os.path.getmtime(os.path.join(CACHE, e)), reverse=True)
+    now = time.time()
     for e in ents[5:]:
-        shutil.rmtree(os.path.join(CACHE, e), ignore_errors=True)
         try:
-            os.unlink(os.path.join(CACHE, e + ".lock"))
+            if now - os.path.getmtime(os.path.join(CACHE, e)) < 600:
+                continue
+            with open(os.path.join(CACHE, e + ".use"), "w") as uf:
+                try:
+                    fcntl.flock(uf, fcntl.LOCK_EX | fcntl.LOCK_NB)
+                except OSError:
+                    continue                    # somebody is reading it
+                shutil.rmtree(os.path.join(CACHE, e), ignore_errors=True)
+                fcntl.flock(uf, fcntl.LOCK_UN)
+            for suffix in (".lock", ".use"):
+                try:
+                    os.unlink(os.path.join(CACHE, e + suffix))
+                except OSError:
+                    pass
         except OSError:
-            pass
+            continue
+
+
+def _manifest(facts):
+    return {f: os.path.getsize(os.path.join(facts, f)) for f in sorted(os.listdir(facts)) if f.endswith(".jsonl")}     # facts.pkl is a derived parse cache
+
+
+def _intact(done, facts):
+    """the DONE marker lists every fact file with its size: a directory that was copied / pruned half-way is re-extracted instead of being analysed"""
+    try:
+        import json
+        m = json.load(open(done))
+        return isinstance(m, dict) and m.get("files") and m["files"] == _manifest(facts) and all(f in m["files"] for f in EXPECTED_FILES)
+    except (OSError, ValueError):
+        return False
 
 
 def ensure_facts(repo=None, log=sys.stderr):
@@ -89,8 +129,9 @@ def ensure_facts(repo=None, log=sys.stderr):
         try:
             done = os.path.join(d, "DONE")
             failed = os.path.join(d, "FAILED")
-            if os.path.exists(done):
+            if os.path.exists(done) and _intact(done, facts):
                 os.utime(d)
+                _mark_in_use(h)
                 return facts, h, {"cached": True, "extract_s": 0.0}
             if os.path.exists(failed):
                 raise ExtractionError(open(failed).read())
@@ -137,8 +178,10 @@ def ensure_facts(repo=None, log=sys.stderr):
                     raise ExtractionError(msg)
                 with open(os.path.join(facts, "attrs.jsonl"), "w") as fh:
                     fh.write(ar.stdout)
+            import json as _json
             with open(done, "w") as fh:
-                fh.write(f"{dt:.1f}\n")
+                _json.dump({"extract_s": round(dt, 1), "files": _manifest(facts)}, fh)
+            _mark_in_use(h)
             print(f"[vv] extraction done in {dt:.1f}s", file=log)
             _prune(h)
             return facts, h, {"cached": False, "extract_s": round(dt, 1)}
